@@ -380,4 +380,254 @@ theorem run_tree (cx : Ctx) (n i : Nat) (a : AMode) (m : RMode) (env : Env) (st 
     simp only [run] at h
     exact nodeCall_tree (run_forested cx n) cx n i a m env st r h
 
+/-! ### the static leaf classification is sound on every trace of the model -/
+
+mutual
+/-- The invocation tree respects the rule table: every invocation directly below an invocation of
+    rule `i` is of a rule that `i`'s `match()` can call. -/
+def dynT (g : Grammar) : Invoc → Bool
+  | .mk i _ _ _ _ _ kids => kidsIn (subsOf g i) kids && dynL g kids
+def dynL (g : Grammar) : List Invoc → Bool
+  | [] => true
+  | t :: ts => dynT g t && dynL g ts
+def kidsIn (S : List Nat) : List Invoc → Bool
+  | [] => true
+  | t :: ts => S.contains t.id && kidsIn S ts
+end
+
+theorem dynL_append (g : Grammar) (a b : List Invoc) : dynL g (a ++ b) = (dynL g a && dynL g b) := by
+  induction a with
+  | nil => simp [dynL]
+  | cons t ts ih => simp [dynL, ih, Bool.and_assoc]
+
+theorem kidsIn_append (S : List Nat) (a b : List Invoc) : kidsIn S (a ++ b) = (kidsIn S a && kidsIn S b) := by
+  induction a with
+  | nil => simp [kidsIn]
+  | cons t ts ih => simp [kidsIn, ih, Bool.and_assoc]
+
+/-- A trace segment made of complete invocation trees that respect the table, all rooted in `S`. -/
+def ForestIn (g : Grammar) (S : List Nat) (l : List Ev) : Prop :=
+  ∃ ts : List Invoc, proj l = flatL ts ∧ kidsIn S ts = true ∧ dynL g ts = true
+
+theorem ForestIn_closed (g : Grammar) (S : List Nat) : RawClosedE (fun _ => ForestIn g S) where
+  nil := fun _ => ⟨[], rfl, rfl, rfl⟩
+  app := by
+    rintro env a b ⟨ta, ha, ka, da⟩ ⟨tb, hb, kb, db⟩
+    exact ⟨ta ++ tb, by rw [proj_append, ha, hb, flatL_append], by rw [kidsIn_append, ka, kb]; rfl,
+      by rw [dynL_append, da, db]; rfl⟩
+  raise := fun _ _ _ => ⟨[], rfl, rfl, rfl⟩
+  fam := id
+  scope := by
+    rintro env l o ho ⟨ts, hts, k, d⟩
+    refine ⟨ts, ?_, k, d⟩
+    rcases ho with rfl | ⟨c, rfl⟩
+    · simpa [proj, Ev.isEE] using hts
+    · simpa [proj, Ev.isEE] using hts
+
+theorem ForestIn.other {g : Grammar} {S : List Nat} {e : Ev} (h : e.isEE = false) : ForestIn g S [e] :=
+  ⟨[], by simp [proj, h, flatL], rfl, rfl⟩
+
+theorem ForestIn.cons_other {g : Grammar} {S : List Nat} {e : Ev} {l : List Ev} (h : e.isEE = false)
+    (hl : ForestIn g S l) : ForestIn g S (e :: l) := by
+  have := (ForestIn_closed g S).app (env := {}) (ForestIn.other h) hl
+  simpa using this
+
+theorem ForestIn.app {g : Grammar} {S : List Nat} {a b : List Ev} (ha : ForestIn g S a) (hb : ForestIn g S b) :
+    ForestIn g S (a ++ b) := (ForestIn_closed g S).app (env := {}) ha hb
+
+theorem afterBody_forestIn (g : Grammar) (S : List Nat) (cx : Ctx) (i : Nat) (a : AMode) (act : ActionSpec) (sd : Nat)
+    (saved : Cursor) (r : Ret) (h : ForestIn g S r.raw) : ForestIn g S (afterBody cx i a act sd saved r).raw := by
+  have act_other : (actEvent cx i act sd saved r.st.cur).isEE = false := by unfold actEvent; split <;> rfl
+  unfold afterBody
+  split
+  · refine h.app ?_
+    split
+    · exact ForestIn.other rfl
+    · exact ⟨[], rfl, rfl, rfl⟩
+  · exact h.app (ForestIn.other rfl)
+  · simp only
+    split
+    · exact h.app (ForestIn.other rfl)
+    · refine (h.app (ForestIn.other act_other)).app ?_
+      split
+      · exact ForestIn.other rfl
+      · exact ⟨[], rfl, rfl, rfl⟩
+    · exact h.app (ForestIn.cons_other act_other (ForestIn.other rfl))
+    · exact h.app (ForestIn.cons_other act_other (ForestIn.other rfl))
+
+/-- No action class with a `match()` of its own is attached anywhere (parse_tree grammars: such a
+    class re-enters the control or replaces the states, which `parse_tree::parse` does not support). -/
+def NoWraps (cx : Ctx) : Prop := ∀ env i nd, cx.g[i]? = some nd → (cx.actOf env i nd).wrap = .none
+
+/-- One complete invocation tree with the given root that respects the table. -/
+def DynTreeOf (g : Grammar) (l : List Ev) (i : Nat) (res : Nat) (b e : Cursor) : Prop :=
+  ∃ t : Invoc, proj l = t.flat ∧ t.id = i ∧ t.res = res ∧ t.b = b ∧ t.e = e ∧ dynT g t = true
+
+def DynRec (g : Grammar) (cx : Ctx) (rec : Rec) : Prop :=
+  ∀ j a m env st r, rec j a m env st = some r → DynTreeOf g r.raw j r.res.code (cx.rep st.cur) (cx.rep r.st.cur)
+
+theorem DynTreeOf.forestIn {g : Grammar} {l i res b e} {S : List Nat} (h : DynTreeOf g l i res b e) (hi : i ∈ S) :
+    ForestIn g S l := by
+  obtain ⟨t, ht, hid, -, -, -, hd⟩ := h
+  refine ⟨[t], by simp [flatL, ht], ?_, by simp [dynL, hd]⟩
+  simp [kidsIn, hid, hi]
+
+theorem nodeCall_dyn {rec : Rec} (cx : Ctx) (hnw : NoWraps cx) (hrec : DynRec cx.g cx rec) (k i : Nat) (a : AMode) (m : RMode)
+    (env : Env) (st : St) (r : Ret) (h : nodeCall cx rec k i a m env st = some r) :
+    DynTreeOf cx.g r.raw i r.res.code (cx.rep st.cur) (cx.rep r.st.cur) := by
+  unfold nodeCall at h
+  split at h
+  · exact absurd h (by simp)
+  · rename_i nd hn
+    simp only [hnw env i nd hn, Option.map_eq_some_iff] at h
+    obtain ⟨r0, h0, rfl⟩ := h
+    have hS : subsOf cx.g i = nd.kind.calls := by simp [subsOf, hn]
+    have hb : ∀ mm r1, body cx rec k nd.kind a mm env st = some r1 → ForestIn cx.g nd.kind.calls r1.raw := by
+      intro mm r1 h1
+      exact body_rawS (ForestIn_closed cx.g nd.kind.calls) cx k nd.kind a
+        (fun j hj m env st r hr => (hrec j a m env st r hr).forestIn hj)
+        (fun j hj m env st r hr => (hrec j .nothing m env st r hr).forestIn hj)
+        (fun _ j hj m env st r hr => (hrec j .action m env st r hr).forestIn hj) mm env st r1 h1
+    have key : ForestIn cx.g nd.kind.calls r0.raw := by
+      unfold nodeCore at h0
+      split at h0
+      · exact hb _ _ h0
+      · simp only [Option.map_eq_some_iff] at h0
+        obtain ⟨r1, h1, rfl⟩ := h0
+        simp only [guardRestore_raw]
+        exact ForestIn.cons_other rfl (afterBody_forestIn _ _ cx i a _ _ st.cur r1 (hb _ _ h1))
+    obtain ⟨ts, hts, hk, hd⟩ := key
+    refine ⟨.mk i a m r0.res.code (cx.rep st.cur) (cx.rep r0.st.cur) ts, ?_, rfl, by simp [Invoc.res], rfl, by simp [Invoc.e], ?_⟩
+    · simp only [bracket, dropOnFail_raw, dropOnFail_res, Invoc.flat]
+      have : proj (Ev.enter i a m (cx.rep st.cur) :: r0.raw ++ [Ev.exit i r0.res.code (cx.rep r0.dropOnFail.st.cur)]) =
+          Ev.enter i a m (cx.rep st.cur) :: proj r0.raw ++ [Ev.exit i r0.res.code (cx.rep r0.dropOnFail.st.cur)] := by
+        simp only [proj, List.cons_append, List.filter_cons, List.filter_append, List.filter_nil, Ev.isEE, if_true]
+      rw [this, hts]
+      simp [Ret.dropOnFail]
+      split <;> rfl
+    · simp [dynT, hS, hk, hd]
+
+theorem run_dyn (cx : Ctx) (hnw : NoWraps cx) : ∀ n, DynRec cx.g cx (run cx n) := by
+  intro n
+  induction n with
+  | zero => intro j a m env st r h; simp [run] at h
+  | succ n ih =>
+    intro j a m env st r h
+    simp only [run] at h
+    exact nodeCall_dyn cx hnw ih n j a m env st r h
+
+theorem kidsIn_nil_of (ts : List Invoc) (h : kidsIn [] ts = true) : ts = [] := by
+  cases ts with
+  | nil => rfl
+  | cons t ts => simp [kidsIn] at h
+
+theorem cls_not_sel_of_none {g : Grammar} {selMap : Nat → Option Sel} {j : Nat} (h : selOf g selMap j = none) :
+    ∀ s, clsOf g selMap j ≠ .sel s := by
+  intro s
+  simp only [clsOf, h]
+  split <;> simp
+
+mutual
+/-- `is_leaf< L, subs >` holds, the tree respects the table: nothing selected below. -/
+theorem noSel_of_leafT (g : Grammar) (selMap : Nat → Option Sel) :
+    ∀ (L : Nat) (t : Invoc), dynT g t = true → (selOf g selMap t.id).isNone = true →
+      isLeaf g selMap L (subsOf g t.id) = true → noSelT (clsOf g selMap) t = true
+  | L, .mk i a m res b e kids => by
+    intro hd hs hl
+    simp only [dynT, Bool.and_eq_true] at hd
+    simp only [Invoc.id] at hs hl
+    simp only [noSelT, Bool.and_eq_true]
+    refine ⟨?_, ?_⟩
+    · have := cls_not_sel_of_none (g := g) (selMap := selMap) (j := i) (by simpa using hs)
+      cases hc : clsOf g selMap i with
+      | sel s => exact absurd hc (this s)
+      | branch => rfl
+      | leaf => rfl
+    · exact noSel_of_leafL g selMap L (subsOf g i) kids hd.1 hd.2 hl
+theorem noSel_of_leafL (g : Grammar) (selMap : Nat → Option Sel) :
+    ∀ (L : Nat) (S : List Nat) (ts : List Invoc), kidsIn S ts = true → dynL g ts = true →
+      isLeaf g selMap L S = true → noSelL (clsOf g selMap) ts = true
+  | _, _, [] => fun _ _ _ => rfl
+  | 0, S, t :: ts => by
+    intro hk _ hl
+    simp only [isLeaf, List.isEmpty_iff] at hl
+    subst hl
+    simp [kidsIn] at hk
+  | L + 1, S, t :: ts => by
+    intro hk hd hl
+    simp only [kidsIn, Bool.and_eq_true] at hk
+    simp only [dynL, Bool.and_eq_true] at hd
+    have hmem : t.id ∈ S := by simpa using hk.1
+    have hall := hl
+    simp only [isLeaf, List.all_eq_true, Bool.and_eq_true] at hall
+    obtain ⟨hs, hl'⟩ := hall t.id hmem
+    simp only [noSelL, Bool.and_eq_true]
+    exact ⟨noSel_of_leafT g selMap L t hd.1 hs hl', noSel_of_leafL g selMap (L + 1) S ts hk.2 hd.2 hl⟩
+end
+
+mutual
+/-- The side condition of `run_specT` holds for the static classification on every tree that
+    respects the table. -/
+theorem leafOK_of_dynT (g : Grammar) (selMap : Nat → Option Sel) : ∀ t : Invoc, dynT g t = true →
+    leafOKT (clsOf g selMap) t = true
+  | .mk i a m res b e kids => by
+    intro hd
+    simp only [dynT, Bool.and_eq_true] at hd
+    simp only [leafOKT, Bool.and_eq_true]
+    refine ⟨?_, leafOK_of_dynL g selMap kids hd.2⟩
+    cases hc : clsOf g selMap i with
+    | sel s => rfl
+    | branch => rfl
+    | leaf =>
+      simp only
+      -- `leaf` means: not selected and is_leaf< 8 >
+      have hsel : selOf g selMap i = none ∧ isLeaf g selMap 8 (subsOf g i) = true := by
+        simp only [clsOf] at hc
+        split at hc
+        · simp at hc
+        · rename_i hn
+          split at hc
+          · rename_i hl; exact ⟨hn, hl⟩
+          · simp at hc
+      exact noSel_of_leafL g selMap 8 (subsOf g i) kids hd.1 hd.2 hsel.2
+theorem leafOK_of_dynL (g : Grammar) (selMap : Nat → Option Sel) : ∀ ts : List Invoc, dynL g ts = true →
+    leafOKL (clsOf g selMap) ts = true
+  | [] => fun _ => rfl
+  | t :: ts => by
+    intro hd
+    simp only [dynL, Bool.and_eq_true] at hd
+    simp [leafOKL, leafOK_of_dynT g selMap t hd.1, leafOK_of_dynL g selMap ts hd.2]
+end
+
+/-- Two classifications that select the same rules with the same transformers. -/
+def SameSel (c1 c2 : Nat → Cls) : Prop :=
+  ∀ j, (∀ s, c1 j = .sel s ↔ c2 j = .sel s)
+
+mutual
+/-- The specification depends on the classification only through which rules are selected. -/
+theorem specT_sameSel (c1 c2 : Nat → Cls) (h : SameSel c1 c2) : ∀ t : Invoc, specT c1 t = specT c2 t
+  | .mk i a m res b e kids => by
+    simp only [specT]
+    rw [specL_sameSel c1 c2 h kids]
+    split
+    · rfl
+    · cases h1 : c1 i with
+      | sel s =>
+        have := (h i s).mp h1
+        simp [this]
+      | branch =>
+        cases h2 : c2 i with
+        | sel s => have := (h i s).mpr h2; rw [h1] at this; exact absurd this (by simp)
+        | branch => rfl
+        | leaf => rfl
+      | leaf =>
+        cases h2 : c2 i with
+        | sel s => have := (h i s).mpr h2; rw [h1] at this; exact absurd this (by simp)
+        | branch => rfl
+        | leaf => rfl
+theorem specL_sameSel (c1 c2 : Nat → Cls) (h : SameSel c1 c2) : ∀ ts : List Invoc, specL c1 ts = specL c2 ts
+  | [] => rfl
+  | t :: ts => by simp [specL, specT_sameSel c1 c2 h t, specL_sameSel c1 c2 h ts]
+end
+
 end Pegtl
